@@ -26,18 +26,18 @@ class Query:
     def __init__(self, name, harness, entry, tus=(), defines=None, unwind=8, stubs=(), stdmodel=False, timeout=120,
                  mem_gb=12, backends=('cadical',), checks='mem', bound='', silent_throw=False, renames=None,
                  known=None, allow_bodyless=(), expect_covers=None, extra_cbmc=(), cxxflags=(), note='',
-                 validate=True, unwindset=()):
+                 validate=True, unwindset=(), uf=()):
         self.name = name; self.harness = harness; self.entry = entry; self.tus = tuple(tus)
         self.defines = dict(defines or {}); self.unwind = unwind; self.stubs = tuple(stubs); self.stdmodel = stdmodel
         self.timeout = timeout; self.mem_gb = mem_gb; self.backends = tuple(backends); self.checks = checks
         self.bound = bound; self.silent_throw = silent_throw; self.renames = dict(renames or {})
         self.known = dict(known or {}); self.allow_bodyless = tuple(allow_bodyless)
         self.expect_covers = expect_covers; self.extra_cbmc = tuple(extra_cbmc); self.cxxflags = tuple(cxxflags)
-        self.note = note; self.validate = validate; self.unwindset = tuple(unwindset)
+        self.note = note; self.validate = validate; self.unwindset = tuple(unwindset); self.uf = tuple(uf)
 
     def module_key(self):
         return (self.harness, tuple(sorted(self.defines.items())), self.tus, self.stdmodel,
-                tuple(sorted(self.renames.items())), self.cxxflags)
+                tuple(sorted(self.renames.items())), self.cxxflags, self.uf)
 
 
 def sh(cmd, timeout=None, cwd=None, mem_gb=None, env=None):
@@ -155,9 +155,11 @@ class Pipeline:
                 for a, b in q.renames.items():
                     txt = re.sub(r'@%s\b' % re.escape(a), '@' + b, txt)
                 open(os.path.join(d, 'module.ll'), 'w').write(txt)
-            r = sh([sys.executable, os.path.join(VT, 'ir2c.py'), os.path.join(d, 'module.ll'), os.path.join(d, 'module.c')], timeout=300)
+            r = sh([sys.executable, os.path.join(VT, 'ir2c.py'), os.path.join(d, 'module.ll'), os.path.join(d, 'module.c')] + (['--uf=' + ','.join(q.uf)] if q.uf else []), timeout=300)
             if r['rc'] != 0: raise BuildError('ir2c on %s: %s' % (q.harness, r['err'][-3000:]))
             meta = json.load(open(os.path.join(d, 'module.c.meta.json')))
+            badg = [g for g in meta['extern_globals'] if g.startswith('_ZTV') and not g.startswith('_ZTVN10__cxxabiv')]
+            if badg: raise BuildError('vtable symbols referenced but not defined (wrong mangled name or missing TU): ' + ', '.join(badg))
             meta['entries'] = entries; meta['overridden'] = overridden; meta['dir'] = d
             meta['build_s'] = round(time.time() - t0, 2)
             dem = sh([CXXFILT], timeout=60) if False else None
@@ -353,7 +355,7 @@ class Pipeline:
     # ---- one query end to end
     def run_query(self, q, replay_root):
         rec = dict(query=q.name, harness=q.harness, entry=q.entry, defines=q.defines, bound=q.bound, unwind=q.unwind,
-                   stubs=['base.c'] + list(q.stubs), stdmodel=q.stdmodel, checks=q.checks, verdict='error',
+                   stubs=['base.c'] + list(q.stubs), stdmodel=q.stdmodel, checks=q.checks, uninterpreted_float_ops=list(q.uf), verdict='error',
                    failed=[], note=q.note)
         t0 = time.time()
         try:
